@@ -1,5 +1,6 @@
 from __future__ import annotations
 
+from copy import copy
 from typing import List, Optional, Set, Dict, Union
 
 from excel2pycl.src.handle_cell import handle_cell
@@ -61,9 +62,13 @@ class Executor:
         Returns:
             Executor.
         """
+        # any iterable of cells will do; it is walked more than once below
+        cells = list(cells)
         for cell in cells:
+            # every address is resolved first: a call that is refused leaves sizes and overrides as they were
             handle_cell(cell, self._titles)
 
+        for cell in cells:
             sheet = cell.title
             row = cell.row + 1
             column = cell.column + 1
@@ -72,7 +77,8 @@ class Executor:
             self._sheets_size[sheet]['last_column'] = max(column, self._sheets_size[sheet]['last_column'])
 
         # one entry per cell, the most recent write replaces the earlier ones
-        self._cells = {**self._cells, **{cell.uid: cell for cell in cells}}
+        # copies are kept: what the caller does with its Cell objects afterwards is not a set_cells call
+        self._cells = {**self._cells, **{cell.uid: copy(cell) for cell in cells}}
         self._cells_have_been_changed = True
         return self
 
